@@ -1321,6 +1321,17 @@ impl World {
                 };
                 Ok(format!("reply:{class}"))
             }
+            // the command with which the manager hands a waiting response to a child, on its own (hook): a second,
+            // overlapping delivery of one response is this command arriving when the response is already gone
+            ["tagive", child, keylabel] => {
+                let ki = self.named_key(keylabel);
+                extra.insert("key".into(), json!(self.key_tok(&ki)));
+                let c = ChildHandle::from_str(child).unwrap();
+                match self.a.krill.ca_manager().verif_ta_proxy_give_child_response(c, ki, &actor, self.a.krill.runtime()) {
+                    Ok(()) => Ok("ok".into()),
+                    Err(_) => Ok("refused".into()),
+                }
+            }
             // ---------------- identity changes
             ["updateid", ca] => {
                 let h = CaHandle::from_str(ca).unwrap();
